@@ -203,9 +203,11 @@ PROPS.update({
         "level": "exploration", "engine": "SCHED",
         "rule": ("as C07 with 2-4 readers, 60% variable-length buckets, 4-9 operations per task; distinct_nontrivial = distinct schedule signatures"),
         "faults": ["seeded preemption at every yield point", "virtual-time tickers"],
-        "assumptions": ["tasks interleave at yield points only: a data race between two plain memory accesses with no file/lock/channel operation in between is outside this check (the deterministic race-detector build of DESIGN.md §2.8 was not built)"],
-        "explanation": "oracles: no task or request panics; no query of a bucket holding acknowledged data fails; every returned row is attributable to exactly one issued write with all columns from that write; reads obey the register/multiset rules of C07",
+        "assumptions": ["tasks interleave at yield points only (every lock, channel, file, timer and go statement); data races between plain memory accesses are decided by the second phase: the same engine in a race-detector build of the simulator in which the scheduler's hand-offs are hidden from the detector (runtime.RaceDisable around them) and the simulated Mutex/RWMutex/WaitGroup/Once/unbuffered-channel operations re-create exactly the happens-before edges the server's own synchronisation implies (buffered channels, atomics and go statements are the real thing); a report counts only when both access stacks belong to marketstore code",
+                        "the race detector keeps a bounded access history per memory word: a race whose first access is very old may be missed (never invented)"],
+        "explanation": "oracles: no task or request panics; no query of a bucket holding acknowledged data fails; every returned row is attributable to exactly one issued write with all columns from that write; reads obey the register/multiset rules of C07; race phase: no data race between two marketstore accesses (identity = unordered pair of the innermost marketstore functions)",
         "budget": {"quick": 40, "thorough": 900},
+        "race": True, "race_budget": {"quick": 25, "thorough": 450},
     },
     "C35": {
         "level": "exploration", "engine": "SCHED",
